@@ -96,6 +96,18 @@ func boundaryCases() []GCase {
 			return obsWith(perf, nil, hist)
 		})})
 	}
+	// perform data far above what a registry accepts: three disjoint pairs of oracles vouch for ten results of 70 KB
+	// each; every observation is valid and under its size limit, all thirty results are at quorum and far below the cap
+	// of 100 - agreement is by votes, never by a byte budget
+	add(GCase{Family: "thirty-quorum-results-with-70KB-perform-data", N: 6, F: 1, Seq: 19, Digest: 1, Obs: nObs(6, func(i int) GObs {
+		var perf []GRes
+		for j := 0; j < 10; j++ {
+			r := honest(1, 4000+(i/2)*10+j, (i/2)*10+j+1)
+			r.PD = fmt.Sprintf("x70000:%02x", 16+(i/2)*10+j)
+			perf = append(perf, r)
+		}
+		return obsWith(perf, nil, hist)
+	})})
 	// 100 and 101 quorum candidates (log upkeeps, distinct logs)
 	for _, k := range []int{99, 100, 101, 130} {
 		k := k
